@@ -1182,6 +1182,8 @@ fn validate_archive(path: &str, check_checksums: bool, threads: Option<usize>) -
             files.len() - errors,
             format_bytes(total_size)
         );
+        // A failed validation must be visible to scripts, not only in the text
+        anyhow::bail!("Archive validation failed with {errors} errors");
     }
 
     Ok(())
